@@ -146,6 +146,25 @@ def correspond(ctx, scale):
                     fail(f'vq:supplied-indices-ce:cos={cosine}', f'VectorQuantize({kw}): loss returned for supplied indices {float(ce_got):.6g} != cross-entropy of the negative distances against them {ce_want:.6g}', dict(kw=kw))
             except Exception as ex:
                 fail(f'vq:supplied-indices:exception:{type(ex).__name__}', f'VectorQuantize({kw}) with indices=: {ex!r}', dict(kw=kw))
+        # the same call with an input that REQUIRES GRAD (the straight-through / rotation block runs) and one exactly-zero token: the reported mse
+        # commitment term is still weight-free mean squared error between the (normalised) input and the SELECTED code
+        if heads == 1 and not masked and not ce:
+            xz = x.clone()
+            xz[0, 0] = 0.0
+            xz.requires_grad_(True)
+            try:
+                _, idz, _, bdz = vq(xz, return_loss_breakdown=True, freeze_codebook=True)
+                with torch.no_grad():
+                    xinz = vq.project_in(xz.detach())
+                    if cosine:
+                        xinz = F.normalize(xinz, dim=-1, eps=1e-6)
+                    qz = vq._codebook.embed[0][idz.reshape(b, nn_)]
+                    want_z = float(((qz - xinz) ** 2).double().mean())
+                dist['vq_requires_grad_zero_token'] = dist.get('vq_requires_grad_zero_token', 0) + 1
+                if not close(bdz.commitment, want_z, 1e-4):
+                    fail(f'vq:commitment-with-requires-grad:cos={cosine}', f'VectorQuantize({kw}), input requires grad, one zero token: reported commitment term {float(bdz.commitment):.6g} != mse(input, selected code) {want_z:.6g}', dict(kw=kw))
+            except Exception as ex:
+                fail(f'vq:requires-grad-call:exception:{type(ex).__name__}', f'VectorQuantize({kw}): {ex!r}', dict(kw=kw))
         ev += 1
         dist['vq'] += 1
         dist['vq_ce'] += ce
